@@ -156,6 +156,21 @@ CHECKS = {
              "variants is only probed when unambiguous.",
         technique="TLA+ spec (Conv) + TLC exhaustive attribute placements, replay as real types (values, addresses, impl probes)",
         design="4 (C08)"),
+    "C18": dict(
+        text="TLC checks Totality.tla (the expansion pipeline's allowed transitions and its termination under weak fairness) "
+             "and enumerates the request space 50 derives x 16 item shapes (unions, empties, generics, raw names) x attribute "
+             "position x 18/26 attribute body forms; every request is expanded in-process on the working-tree sources under "
+             "catch_unwind with a deadline (harness crashes = stack exhaustion are attributed to the case); every string up "
+             "to length 3/4 over an alphabet with 1-4-byte characters, random Unicode literals, huge numbers and deep nesting "
+             "go through the literal parser and real expansions; all outcomes are classified and the recorded events are "
+             "validated by TLC against the pipeline specification (Trace_Totality). Parser progress invariants are checked "
+             "in MC_FmtStrings / MC_ExprSplit.",
+        level="model_checking",
+        note="bounded exploration: the request space is finite and enumerated, the literal/token spaces are sampled beyond "
+             "the short-string bound; the panic classifier's table is part of the evidence (deliberate descriptive panics "
+             "count as diagnostics).",
+        technique="TLA+ pipeline spec (Totality) + TLC request enumeration, in-process replay, trace validation of outcomes",
+        design="4 (C18)"),
 }
 
 NOT_YET = {}
